@@ -618,7 +618,7 @@ def _translator_tables(c: Check):
         r = None
         for st in ap.node.body:
             if isinstance(st, ast.Return):
-                r = st.value
+                r = util.return_value(ap, st)
         ok = False
         msg = 'apply does not return a translated instruction result'
         if isinstance(r, ast.Call):
